@@ -802,7 +802,7 @@ class TruthTable(ProgFamily):
             yield tt_case(ts, i % 2)
         # depth 3: every operator over sampled depth-2 operands (seeded)
         d2 = trees_upto(2, [1, 2, 3, 4])
-        n = 800 if tier == "quick" else 20000
+        n = 800 if tier == "quick" else 12000
         for _ in range(n):
             op = rng.choice(["and", "or", "xor", "inv", "mor"])
             a, b_ = rng.choice(d2), rng.choice(d2)
@@ -893,7 +893,7 @@ class RandomPrograms(ProgFamily):
     budget_share = 2.0
 
     def cases(self, tier, rng):
-        n = 3000 if tier == "quick" else 30000
+        n = 3000 if tier == "quick" else 20000
         for i in range(n):
             dk = rng.choice([["A6"], ["A6", "B4"], ["A34"], ["A232"], ["A6"], ["A34", "B4"], ["T16"]])
             yield random_program(rng, dk, rng.randint(2, 6), rng.randint(4, 22 if tier == "quick" else 40), tier)
